@@ -217,3 +217,76 @@ Section RowSplit.
   Definition cell_three_pages (restart : bool) (c : list U) (s : nat) : list U :=
     firstn s c ++ [] ++ skipn (if restart then 0 else s) c.
 End RowSplit.
+
+(* ------------------------------------------------------------------ general resume stacks and their comparison *)
+
+(* tree.ResumeStack (target.go:30) in general: map[int]ResumeStack, "at each level several
+   boxes may be selected".  A map is represented by its entries; the canonical
+   representation lists them by strictly increasing key (the harness prints them so).  nil
+   and the empty map are both `MS []` ("nil and 0-sized map are compared equal").
+
+   ms_equals is the port of ResumeStack.Equals (target.go:50-62): same number of entries and
+   every key of r is a key of other with a sub-stack that Equals its own.  Its only caller is
+   remakePage (pages.go): the cached next page is kept only when the page just made again
+   ends at the resume point it ended at before -- the guard that lets the repagination loop
+   reuse pages (C01's page loop) without losing or repeating content (C02). *)
+Inductive mstack := MS (entries : list (Z * mstack)).
+
+Definition ms_entries (r : mstack) : list (Z * mstack) := match r with MS e => e end.
+
+Fixpoint ms_lookup (k : Z) (e : list (Z * mstack)) : option mstack :=
+  match e with
+  | [] => None
+  | (k', v) :: t => if Z.eqb k k' then Some v else ms_lookup k t
+  end.
+
+Fixpoint ms_equals (r o : mstack) {struct r} : bool :=
+  let eo := ms_entries o in
+  match r with
+  | MS er =>
+      Nat.eqb (length er) (length eo) &&
+      (fix all (l : list (Z * mstack)) : bool :=
+         match l with
+         | [] => true
+         | (k, v1) :: t =>
+             match ms_lookup k eo with
+             | Some v2 => ms_equals v1 v2
+             | None => false
+             end && all t
+         end) er
+  end.
+
+(* keys strictly increasing, at every level *)
+Fixpoint keys_increasing (lo : option Z) (ks : list Z) : bool :=
+  match ks with
+  | [] => true
+  | k :: t => match lo with Some l => Z.ltb l k | None => true end && keys_increasing (Some k) t
+  end.
+
+Fixpoint ms_canonical (r : mstack) : bool :=
+  match r with
+  | MS e =>
+      keys_increasing None (map fst e) &&
+      (fix all (l : list (Z * mstack)) : bool :=
+         match l with [] => true | (_, v) :: t => ms_canonical v && all t end) e
+  end.
+
+(* structural equality, decided *)
+Fixpoint ms_eqb (r o : mstack) {struct r} : bool :=
+  match r, o with
+  | MS er, MS eo =>
+      (fix go (l1 l2 : list (Z * mstack)) : bool :=
+         match l1, l2 with
+         | [], [] => true
+         | (k1, v1) :: t1, (k2, v2) :: t2 => Z.eqb k1 k2 && ms_eqb v1 v2 && go t1 t2
+         | _, _ => false
+         end) er eo
+  end.
+
+(* the single-key stacks of block / line fragmentation as general stacks *)
+Fixpoint ms_of_rs (r : rstack) : mstack :=
+  match r with
+  | RS i sub => MS [(Z.of_nat i, match sub with Some r' => ms_of_rs r' | None => MS [] end)]
+  end.
+Definition ms_of_rstack (r : option rstack) : mstack :=
+  match r with Some r' => ms_of_rs r' | None => MS [] end.
